@@ -401,15 +401,16 @@ Proof.
 Qed.
 
 (* a server without the modern verbs: the client's VFS fallbacks give the same machine, except that
-   the Repository.iter_revisions discrepancy disappears with the verb *)
+   the Repository.iter_revisions discrepancy disappears with the verb and generate_revision_history
+   of an absent revision raises the local class again *)
 Definition old_quirk (rs : bool) (o : op) : bool :=
-  match o with GetRev _ => negb rs | _ => false end.
+  match o with GetRev _ => negb rs | GenHist _ => true | _ => false end.
 Definition old_quirk_free (rs : bool) (ops : list op) : bool := forallb (fun o => negb (old_quirk rs o)) ops.
 
 Lemma step_old_irrelevant rs x o : old_quirk rs o = false ->
   step (cfg_old rs) x o = step (cfg_vfs rs) x o.
 Proof.
-  intros Q. unfold step. destruct o; try reflexivity.
+  intros Q. unfold step. destruct o; try reflexivity; try discriminate.
   cbn [old_quirk] in Q. apply negb_false_iff in Q. subst rs. reflexivity.
 Qed.
 
